@@ -15,7 +15,8 @@ const vSysType = "vsys"
 
 type vSysEnt struct {
 	BaseExtEntity
-	Name string
+	Name  string
+	Owner *string // optional reference to a dept (only wired in the cascade harness)
 }
 
 func (e *vSysEnt) GetEntityType() string { return vSysType }
@@ -26,10 +27,12 @@ func (vSysStrategy) NewEntity() *vSysEnt { return new(vSysEnt) }
 func (vSysStrategy) FillEntity(e *vSysEnt, b *TypedBucket) {
 	e.LoadBaseValues(b)
 	e.Name = b.GetStringOrError(vFName)
+	e.Owner = b.GetString("owner")
 }
 func (vSysStrategy) PersistEntity(e *vSysEnt, ctx *PersistContext) {
 	e.SetBaseValues(ctx)
 	ctx.SetString(vFName, e.Name)
+	ctx.SetStringP("owner", e.Owner)
 }
 
 type vSysStore struct {
@@ -42,7 +45,11 @@ type vSysEnv struct {
 	store *vSysStore
 }
 
-func verifNewSysEnv() *vSysEnv {
+func verifNewSysEnv() *vSysEnv { return verifNewSysEnvOwned(nil, 0) }
+
+// with a dept store given, vsys.owner references it with a cascading delete
+// (wiring 0: fk constraint, 1: fk index)
+func verifNewSysEnvOwned(dept *vDeptStore, wiring int) *vSysEnv {
 	def := StoreDefinition[*vSysEnt]{
 		EntityType:      vSysType,
 		EntityStrategy:  vSysStrategy{},
@@ -54,11 +61,22 @@ func verifNewSysEnv() *vSysEnv {
 	s.AddExtEntitySymbols()
 	s.AddUniqueIndex(s.AddSymbol(vFName, ast.NodeTypeString))
 	s.AddConstraint(NewSystemEntityEnforcementConstraint(s))
+	if dept != nil {
+		owner := s.AddFkSymbol("owner", dept)
+		if wiring == 0 {
+			s.AddFkConstraint(owner, true, CascadeDelete)
+		} else {
+			s.AddFkIndexCascadeDelete(owner, dept.AddFkSetSymbol("gadgets", s))
+		}
+	}
 	raw := verifrt.OpenDB()
 	env := &vSysEnv{raw: raw, db: &DbImpl{rootBucket: vRootPath, db: raw}, store: s}
 	err := env.db.Update(nil, func(ctx MutateContext) error {
 		h := &vErrHolder{}
 		s.InitializeIndexes(ctx.Tx(), h)
+		if dept != nil {
+			dept.InitializeIndexes(ctx.Tx(), h)
+		}
 		return h.err
 	})
 	verifrt.Assert(err == nil, "C16 store initialisation succeeds")
@@ -68,6 +86,7 @@ func verifNewSysEnv() *vSysEnv {
 // one operation of a transaction body
 type vSysOp struct {
 	kind    int  // 0 create, 1 update, 2 delete
+	patch   bool // update restricted by a field checker naming the name field
 	slot    int  // entity slot
 	sysCtx  bool // issued through the system context
 	flag    bool // IsSystem field of the entity passed in
@@ -81,6 +100,7 @@ func verifSymSysOp(nSlots int) vSysOp {
 		sysCtx:  verifrt.Bool("sysctx"),
 		flag:    verifrt.Bool("flag"),
 		migrate: verifrt.Bool("migrate"),
+		patch:   verifrt.Bool("patch"),
 	}
 }
 
@@ -167,7 +187,11 @@ func VerifC16_SystemEntities() {
 			case 0:
 				err = env.store.Create(c, ent)
 			case 1:
-				err = env.store.Update(c, ent, nil)
+				var checker FieldChecker
+				if op.patch {
+					checker = MapFieldChecker{vFName: struct{}{}}
+				}
+				err = env.store.Update(c, ent, checker)
 			case 2:
 				err = env.store.DeleteById(c, vIds[op.slot])
 			}
@@ -193,4 +217,68 @@ func VerifC16_SystemEntities() {
 		}
 		return nil
 	})
+}
+
+// VerifC16_CascadeReachesSystemEntity: system (or ordinary) entities reference
+// an ordinary dept with a cascading delete. Deleting the dept deletes its
+// referrers on the caller's behalf - so from an ordinary context it is refused
+// when a system entity is among them, and then nothing changes.
+func VerifC16_CascadeReachesSystemEntity() {
+	dept := verifNewDeptStore()
+	wiring := verifrt.Choose("wiring", 2)
+	env := verifNewSysEnvOwned(dept, wiring)
+	defer env.raw.Close()
+	err := env.db.Update(NewMutateContext(context.Background()), func(ctx MutateContext) error {
+		return dept.Create(ctx, &vDept{Id: "x", Label: "L"})
+	})
+	verifrt.Assert(err == nil, "C16 dept setup succeeds")
+	system := make([]bool, 2)
+	refs := make([]bool, 2)
+	for i := 0; i < 2; i++ {
+		system[i] = verifrt.Bool("system")
+		refs[i] = verifrt.Bool("references.x")
+		if wiring == 1 {
+			verifrt.Assume(refs[i]) // the cascading fk index is not nullable
+		}
+		var owner *string
+		if refs[i] {
+			x := "x"
+			owner = &x
+		}
+		err := env.db.Update(NewMutateContext(context.Background()), func(ctx MutateContext) error {
+			c := ctx
+			if system[i] {
+				c = ctx.GetSystemContext()
+			}
+			return env.store.Create(c, &vSysEnt{BaseExtEntity: BaseExtEntity{Id: vIds[i], IsSystem: system[i]}, Name: "n" + vIds[i], Owner: owner})
+		})
+		verifrt.Assert(err == nil, "C16 gadget setup succeeds")
+	}
+	var before []vDumpEntry
+	_ = env.db.View(func(tx *bbolt.Tx) error { before = verifDump(tx); return nil })
+	sysCtx := verifrt.Bool("sysctx")
+	err = env.db.Update(NewMutateContext(context.Background()), func(ctx MutateContext) error {
+		c := ctx
+		if sysCtx {
+			c = ctx.GetSystemContext()
+		}
+		return dept.DeleteById(c, "x")
+	})
+	reachesSystem := (system[0] && refs[0]) || (system[1] && refs[1])
+	verifrt.Assert((err != nil) == (reachesSystem && !sysCtx), "C16 a cascading delete that reaches a system entity is accepted only from a system context")
+	_ = env.db.View(func(tx *bbolt.Tx) error {
+		if err != nil {
+			verifrt.Assert(verifDumpEqual(before, verifDump(tx)), "C16 a refused cascading delete changes nothing")
+			return nil
+		}
+		for i := 0; i < 2; i++ {
+			_, found, ferr := env.store.FindById(tx, vIds[i])
+			verifrt.Assert(ferr == nil && found == !refs[i], "C16 an accepted cascading delete removes exactly the referrers")
+		}
+		return nil
+	})
+}
+
+func init() {
+	verifQueryFamilies = append(verifQueryFamilies, func() []string { return []string{`owner = "x"`} })
 }
